@@ -246,10 +246,11 @@ class GridSamplingOp(LinearOperator):
                 f' batch channel {"z y x" if dim==3 else "y x"}.'
             )
 
-        #   The gridsample operator only works for real data, thus we handle complex inputs as an additional channel
-        x_real = rearrange(torch.view_as_real(x), '... real_imag  -> real_imag ...') if x.is_complex() else x
         shape_grid_batch = self.grid.shape[: -dim - 1]  # the batch dimensions of grid
         n_batchdim = len(shape_grid_batch)
+        #   The gridsample operator only works for real data, thus we handle complex inputs as an additional channel
+        #   (the first channel dimension, directly after the batch dimensions)
+        x_real = torch.view_as_real(x).movedim(-1, n_batchdim) if x.is_complex() else x
         shape_x_batch = x_real.shape[:n_batchdim]  # the batch dimensions of the input
         try:
             shape_batch = torch.broadcast_shapes(shape_x_batch, shape_grid_batch)
@@ -275,7 +276,7 @@ class GridSamplingOp(LinearOperator):
         # .. and reshape back.
         result = sampled.reshape(*shape_batch, *shape_channels, *sampled.shape[-dim:])
         if x.is_complex():
-            result = torch.view_as_complex(rearrange(result, 'real_imag ... -> ... real_imag').contiguous())
+            result = torch.view_as_complex(result.movedim(n_batchdim, -1).contiguous())
         return (result,)
 
     def _forward_implementation(
